@@ -752,6 +752,11 @@ pub struct Outcome {
     pub dot_bz: f64,
     pub dot_sz: f64,
     pub dot_xpx: f64,
+    /// previous-iterate figures kept by the info record (hook): res_primal, res_dual, gap_abs, gap_rel
+    pub prev_res_primal: f64,
+    pub prev_res_dual: f64,
+    pub prev_gap_abs: f64,
+    pub prev_gap_rel: f64,
     pub presolver_keep: Option<Vec<bool>>,
     pub internal_m: usize,
     pub internal_n: usize,
@@ -804,7 +809,9 @@ pub fn collect(solver: &DefaultSolver<f64>) -> Outcome {
     let (dqx, dbz, dsz, dxpx) = clarabel::verif_hooks::term::residual_dots(&solver.residuals);
     let sol = &solver.solution;
     let info = &solver.info;
+    let prevs = clarabel::verif_hooks::term::info_prev(info);
     Outcome {
+        prev_res_primal: prevs.2, prev_res_dual: prevs.3, prev_gap_abs: prevs.4, prev_gap_rel: prevs.5,
         run: "ok".into(),
         status: format!("{:?}", sol.status),
         x: sol.x.clone(), s: sol.s.clone(), z: sol.z.clone(),
@@ -865,8 +872,10 @@ pub fn apply_update(p: &Problem, u: &DataUpdate) -> Problem {
 }
 /// Base problem + update for the data-updating stream.  Objective scaled by a power of two so the
 /// equilibration's cost scaling c is far from 1; equilibration on, presolve off (updates are refused
-/// otherwise), upper-triangular P.  Mode (idx % 6): q only / b only / P+q / A+b+q / all four /
-/// vectors only on an infeasible base.
+/// otherwise), upper-triangular P.  Mode (idx % 10, the last three all being mode 7): q only / b only / P+q / A+b+q / all four /
+/// vectors only on an infeasible base / A+b(+q) on an infeasible base / q(+b) on a problem whose rows
+/// are scaled by 2^10 (then c >> 1 while ||x||, ||z|| stay small, so a stale or mis-scaled cached norm
+/// changes the Solved verdict itself, not only the reported figure).
 pub fn gen_update_case(rng: &mut Rng, idx: usize, max_size: usize) -> (Problem, DataUpdate) {
     let all: [&str; 7] = ["zero", "nn", "soc", "exp", "pow", "genpow", "psd"];
     let sym: [&str; 3] = ["zero", "nn", "soc"];
@@ -874,14 +883,14 @@ pub fn gen_update_case(rng: &mut Rng, idx: usize, max_size: usize) -> (Problem, 
     let target_m = 1 + rng.below(2 * n + 2);
     let kinds: &[&str] = if rng.chance(1, 2) { &sym } else { &all };
     let cones = sample_cones(rng, target_m, kinds);
-    let mode = idx % 6;
-    let mut p = match mode { 5 => if rng.chance(1, 2) { gen_primal_infeasible(rng, n, cones) } else { gen_dual_infeasible(rng, n, cones) }, _ => gen_feasible(rng, n, cones) };
+    let mode = [0usize, 1, 2, 3, 4, 5, 6, 7, 7, 7][idx % 10];
+    let mut p = match mode { 5 | 6 => if rng.chance(1, 2) { gen_primal_infeasible(rng, n, cones) } else { gen_dual_infeasible(rng, n, cones) }, _ => gen_feasible(rng, n, cones) };
     p.settings = sample_settings(rng);
     p.settings.equilibrate = true;
     p.settings.presolve = false;
     p.p_full = false;
     // P must be nonzero for c to move: give every problem a diagonal if P is empty
-    if p.P.ents.is_empty() && mode != 5 {
+    if p.P.ents.is_empty() && mode != 5 && mode != 6 {
         let mut d = vec![vec![0.0; p.n()]; p.n()];
         for j in 0..p.n() { d[j][j] = small_int(rng, 1, 3); }
         p.P = SpMat::from_dense(&d, p.n(), p.n());
@@ -891,14 +900,26 @@ pub fn gen_update_case(rng: &mut Rng, idx: usize, max_size: usize) -> (Problem, 
         for j in 0..p.n() { p.q[j] -= px[j]; }
     }
     // badly scaled objective (power of two): (P, q) <- sigma (P, q)
-    let sigma = 2f64.powi(*rng.pick(&[-14, -10, -6, 6, 10, 14]));
+    let mut rowscale7 = 1.0;
+    let sigma = if mode == 7 { 1.0 } else { 2f64.powi(*rng.pick(&[-14, -10, -6, 6, 10, 14])) };
     for e in p.P.ents.iter_mut() { e.2 *= sigma; }
     for v in p.q.iter_mut() { *v *= sigma; }
-    if rng.chance(1, 2) { badly_scale(rng, &mut p, 8); }
+    if mode == 7 {
+        // all rows x 2^k: D becomes small, c large, the multipliers small
+        let k = *rng.pick(&[8, 10, 12]);
+        let f = 2f64.powi(k);
+        rowscale7 = f;
+        for e in p.A.ents.iter_mut() { e.2 *= f; }
+        for v in p.b.iter_mut() { *v *= f; }
+        p.settings.tol_feas = *rng.pick(&[1e-4, 1e-5, 1e-6]);
+        p.settings.tol_gap_abs = 1e-4; p.settings.tol_gap_rel = 1e-4;
+        p.label = format!("{} + rows x2^{}", p.label, k);
+    } else if rng.chance(1, 2) { badly_scale(rng, &mut p, 8); }
     p.label = format!("{} + objective x2^{}", p.label, sigma.log2());
     let (n, m) = (p.n(), p.m());
     let mut u = DataUpdate::default();
-    let dz = concat_interior(rng, &p.cones, true);
+    // (mode 7: the multipliers live at scale 2^-k, so that q stays moderate)
+    let dz: Vec<f64> = concat_interior(rng, &p.cones, true).iter().map(|v| v / rowscale7).collect();
     let dx: Vec<f64> = (0..n).map(|_| small_int(rng, -2, 2)).collect();
     let q_shift = |p: &Problem, a: &SpMat, scale: f64| -> Vec<f64> { let t = a.tmul_vec(&dz); (0..p.n()).map(|j| p.q[j] * scale - sigma * t[j]).collect() };
     let b_shift = |p: &Problem, a: &SpMat| -> Vec<f64> { let t = a.mul_vec(&dx); (0..p.m()).map(|i| p.b[i] + t[i]).collect() };
@@ -923,12 +944,28 @@ pub fn gen_update_case(rng: &mut Rng, idx: usize, max_size: usize) -> (Problem, 
             u.q = Some(q_shift(&p, &a2, 1.0));
             if mode == 4 { let f = *rng.pick(&[0.5, 2.0]); u.p_vals = Some(p.P.ents.iter().map(|e| e.2 * f).collect()); }
         }
-        _ => {
+        5 => {
             // infeasible base: rescale q and b (certificates survive positive rescaling of b / q)
             if rng.chance(1, 2) { u.q = Some(p.q.iter().map(|v| v * 4.0).collect()); }
             if u.q.is_none() || rng.chance(1, 2) { u.b = Some(p.b.iter().map(|v| v * 0.5).collect()); }
         }
+        6 => {
+            // infeasible base: rows of A and b rescaled (uniform factor, and per-row factors on the
+            // elementwise cones): the planted certificate survives with z_i / f_i (resp. s_i f_i)
+            let g = *rng.pick(&[2.0, 0.5, 8.0]);
+            let mut rowf = vec![g; m];
+            let mut i0 = 0;
+            for c in &p.cones { for k in 0..c.dim() { if c.elementwise() && rng.chance(1, 2) { rowf[i0 + k] *= *rng.pick(&[2.0, 0.25]); } } i0 += c.dim(); }
+            u.a_vals = Some(p.A.ents.iter().map(|e| e.2 * rowf[e.0]).collect());
+            u.b = Some((0..m).map(|i| p.b[i] * rowf[i]).collect());
+            if rng.chance(1, 2) { u.q = Some(p.q.iter().map(|v| v * 2.0).collect()); }
+        }
+        _ => {
+            u.q = Some(q_shift(&p, &p.A, *rng.pick(&[1.0, 2.0])));
+            if rng.chance(1, 2) { u.b = Some(b_shift(&p, &p.A)); }
+        }
     }
+    if mode == 7 { return (p, u); }
     u.max_iter = match rng.below(3) { 0 => Some(2 + rng.below(4) as u32), 1 => Some(6 + rng.below(8) as u32), _ => None };
     (p, u)
 }
